@@ -463,3 +463,12 @@ def p9(ctx):
 
 
 RULES.append(p9)
+
+
+@rule("P10", doc="the canonical group variant of a node is well defined: minimisation key is name-free and separates distinct variants (C11.N1)")
+def p10(ctx):
+    from . import c11
+    c11.n1(ctx)
+
+
+RULES.append(p10)
